@@ -35,9 +35,15 @@ func (w *World) modelOnly(op Op) {
 		m.LoadVersion(op.Ver)
 	case OpDelTo:
 		m.DeleteVersionsTo(op.Ver)
-	case OpLVFO, OpDelFrom:
-		if _, ok := m.LoadVersion(op.Ver); ok {
+	case OpLVFO:
+		if _, ok := m.LoadVersion(op.Ver); ok && !m.pinnedAbove(op.Ver) {
 			m.Truncate(op.Ver)
+		}
+	case OpDelFrom:
+		if !m.pinnedAbove(op.Ver) {
+			if _, ok := m.LoadVersion(op.Ver); ok {
+				m.Truncate(op.Ver)
+			}
 		}
 	case OpImport:
 		root, conts := m.Roots[op.Ver], m.Conts[op.Ver]
@@ -183,5 +189,29 @@ func init() {
 			}
 		})
 		return hit
+	}
+}
+
+func init() {
+	// One DeleteVersionsTo call that removes two or more versions while the write batch auto-flushes in the
+	// middle of it (small FlushThreshold): the deletion reads back a state in which its own earlier writes are
+	// partly on disk and partly still buffered, and fails with "Value missing for key".
+	matchers["c04_multi_version_prune_with_midway_flush"] = func(c *MatchCtx) bool {
+		if c.Cfg.Flush <= 0 || c.Cfg.Flush > 1000 || len(c.Hist) == 0 {
+			return false
+		}
+		last := c.Hist[len(c.Hist)-1]
+		if last.Kind != OpDelTo || c.V.Oracle != "api" || !strings.Contains(c.V.Detail, "Value missing for key") {
+			return false
+		}
+		m := finalModel(c.Cfg, c.Hist[:len(c.Hist)-1])
+		// the flush threshold of the running instance may have been changed by a reopen
+		fl := c.Cfg.Flush
+		for _, o := range c.Hist {
+			if o.Kind == OpReopen {
+				fl = o.Flush
+			}
+		}
+		return fl > 0 && fl <= 1000 && last.Ver-m.First+1 >= 2 && last.Ver < m.Latest
 	}
 }
